@@ -243,6 +243,22 @@ def r_dict(eng, args, kw, st, sink, n):
         return
     if len(args) == 1 and not kw:
         x = args[0]
+        if isinstance(x.ty, T.ListV) and isinstance(x.ty.elem, T.TupT) and len(x.ty.elem.elems) == 2 \
+                and isinstance(x.aux, tuple) and x.aux[0] == "image":
+            # dict(<generator of (key, value) pairs>)
+            _, bound, guard, elt = x.aux
+            tt = x.ty.elem
+            dt = want if isinstance(want, T.DictT) else T.DictT(tt.elems[0], tt.elems[1])
+            kz = eng.coerce(V(tt.elems[0], tt.get(elt.z, 0)), dt.key, n).z
+            vz = eng.coerce(V(tt.elems[1], tt.get(elt.z, 1)), dt.val, n).z
+            res, st2 = eng.fresh(dt, "dict", st)
+            y = dt.key.fresh("y")
+            dom = z3.Lambda([y], z3.Exists(bound, z3.And(guard, y == kz)))
+            vals = dt.vals(res.z)
+            src = z3.ForAll([y], z3.Implies(z3.Select(dom, y),
+                                            z3.Exists(bound, z3.And(guard, y == kz, z3.Select(vals, y) == vz))))
+            yield st2.assume(dt.dom(res.z) == dom, src), res
+            return
         if isinstance(x.ty, T.DictT):
             yield st, V(want if isinstance(want, T.DictT) and not isinstance(x.ty, (ItemsT, ValuesT)) else
                         T.DictT(x.ty.key, x.ty.val), x.z)
@@ -357,6 +373,14 @@ def r_enumerate(eng, args, kw, st, sink, n):
 def r_partial(eng, args, kw, st, sink, n):
     f = args[0]
     yield st, V(T.FUN, FunV("partial", func=f, args=list(args[1:]), kwargs=dict(kw)))
+
+
+def r_defaultdict(eng, args, kw, st, sink, n):
+    want = st.meta.get("want")
+    if isinstance(want, DDictT) and len(args) == 1:
+        yield st, V(want, want.empty())
+        return
+    raise Unsupported("defaultdict(...) needs a declared DDict local type", n)
 
 
 def r_noop(eng, args, kw, st, sink, n):
@@ -509,6 +533,16 @@ def m_str_format(eng, bb, args, kw, st, sink, n):
     yield st, V(T.STR, eng.concat(parts))
 
 
+class NoopCtx:
+    """context manager without effect on the verified state (timer)"""
+
+    def enter(self, eng, cm, st, s):
+        yield Outcome("next", st, cm)
+
+    def exit(self, eng, cm, o, s):
+        yield o
+
+
 def install(eng):
     import builtins
     import functools as ft
@@ -534,6 +568,14 @@ def install(eng):
     R[range] = r_range
     R[enumerate] = r_enumerate
     R[ft.partial] = r_partial
+    import collections
+    R[collections.defaultdict] = r_defaultdict
+    try:
+        import gwf.utils as gu
+        R[gu.timer] = lambda eng, args, kw, st, sink, n: iter([(st, V(T.PY, ("timer",)))])
+        eng.ctx_hooks["timer"] = NoopCtx()
+    except ImportError:
+        pass
     M = eng.method_rules
     M[(T.ListV, "append")] = m_append
     M[(T.ListT, "append")] = m_append
